@@ -14,7 +14,7 @@ the closed child stays in the provider's scope table. Schedule: the creator regi
 `delete(p.scopes, child)` finds nothing), then the creator registers the child in `p.scopes`. -/
 theorem F2_closed_child_stays_registered :
     (run (init [thr .sChk, thr (.cCas (.ret .okUnit))])
-        ([0,0,0] ++ [1,1,1,1,1,1,1,1,1,1,1,1,1,1] ++ [0,0])).map
+        ([0,0,0] ++ [1,1,1,1,1,1,1,1,1,1,1,1,1,1,1] ++ [0,0])).map
       (fun s => (s.thr.map (·.pc), s.sh.scopes, s.sh.kidClosed, s.sh.closedSig)) =
     some ([.done (.okChild 1), .done .okUnit, .wKid 1], some [1], [1], true) := by decide
 
@@ -24,7 +24,7 @@ the disposed check (`gChk`), `provider.Close` runs completely (closing `S`, clea
 `sync.Map`), then the lock-free read misses. -/
 theorem F3_singleton_not_initialized_during_close :
     (run (init [thr .gChk, thr .pCas])
-        ([0] ++ [1,1,1, 1,1,1,1,1,1,1,1,1, 1,1] ++ [0])).map
+        ([0] ++ [1,1,1, 1,1,1,1,1,1,1,1,1,1, 1,1] ++ [0])).map
       (fun s => (s.thr.map (·.pc), s.sh.singletons)) =
     some ([.done .notInit, .done .okUnit], false) := by decide
 
